@@ -100,6 +100,12 @@ ScenC15(u) == {Plain(<<dc>>) : dc \in C15Docs(0)}
                         IF x = p THEN Tc(Ids[1][x], how, 80, 0, None, "stdout", "combined", "match", None, FALSE, None)
                         ELSE CramKind(names[x], Ids[1][x])])>>) :
                      p \in 0..3, how \in {"exit", "exitscript"}, names \in [1..3 -> {"pass", "failout"}]}
+           \* a test case returns the skip code WITHOUT leaving the shared script, a later one ends the script with another
+           \* code (`exit 3`): the skip comes first, the document is skipped - not an execution error
+           \cup {Plain(<<Cram(pre \o <<Tc("d1t2", "exit", 80, 0, None, "stdout", "combined", "match", None, FALSE, None)>> \o mid
+                              \o <<Tc("d1t4", "exitscript", 3, 0, None, "stdout", "combined", "match", None, FALSE, None)>>)>> \o rest) :
+                     pre \in {<<>>, <<CramKind("pass", "d1t1")>>}, mid \in {<<>>, <<CramKind("failout", "d1t3")>>},
+                     rest \in {<<>>, <<Cram(<<CramKind("pass", "d2t1")>>)>>}}
 
 \* Markdown documents run with --cram-compat: the script executor must honour the Markdown-only ways to set the skip code
 Combined(dc) == [dc EXCEPT !.tests = [x \in 1..Len(dc.tests) |-> [dc.tests[x] EXCEPT !.stream = "combined"]]]
